@@ -229,7 +229,10 @@ def run(ctx):
             hist.append(k)
             kinds[k] = kinds.get(k, 0) + 1
             total += 1
-            what = check(w)
+            try:
+                what = check(w)
+            except RecursionError:
+                what = "a held tree now contains itself (two nodes share one children list, or a node became its own descendant)"
             if what:
                 fails.append({"case": {"history": hist}, "what": f"after {hist[-5:]}: {what}"})
                 break
